@@ -325,6 +325,19 @@ class Ctx:
                 if missing:
                     okthis = False
                     self.tie_broken("proof", pf, "theorems without Print Assumptions: %s" % missing)
+                if okthis and self.thorough and os.environ.get("VERIF_NO_COQCHK") != "1":
+                    # independent re-check of the compiled closure (coqchk) + its own axiom listing
+                    lib = "V." + pf[:-2].replace("/", ".")
+                    cmdk = "timeout 1500 coqchk -silent -o -Q . V %s" % lib
+                    self.checker_cmds.append("cd coq && " + cmdk)
+                    rck, outk = sh("ulimit -s unlimited; " + cmdk, cwd=COQ, timeout=1560)
+                    summary = " ".join(outk[outk.find("* Axioms"):].split())[:1500] if "* Axioms" in outk else outk[-400:]
+                    self.trusted.append("coqchk -o %s: rc=%d %s" % (lib, rck, summary))
+                    bad_modes = [k for k in ("type-in-type", "unsafe (co)fixpoints", "positivity is assumed")
+                                 if re.search(re.escape(k) + r":\s*(?!<none>)\S", outk)]
+                    if rck != 0 or bad_modes:
+                        okthis = False
+                        self.tie_broken("proof", "coqchk " + lib, outk[-1500:])
                 if okthis:
                     self.discharged += len(names)
                     self.theorems += names
